@@ -221,12 +221,12 @@ def finish(res, spec):
     if new:
         seen = set()
         for v in new:
-            key = (v["check"], v.get("sig"))
+            key = (v["prop"], v["check"], v.get("sig"))
             if key in seen:
                 continue
             seen.add(key)
             log("VIOLATION property=%s replay=%s" % (res.prop, v.get("replay", "")))
-            log("   check=%s sig=%s: %s" % (v["check"], v.get("sig"), v["msg"][:600]))
+            log("   check=%s sig=%s: %s" % (v["check"] if v["prop"] == res.prop else v["prop"] + "/" + v["check"], v.get("sig"), v["msg"][:600]))
         return 1
     if res.inconclusive:
         for r in res.inconclusive:
@@ -245,11 +245,11 @@ RM_MACHINES_MORE = ["m01-1s4c", "m08-2s2n2c-hbm", "m11-2s2n3c2t-memless", "m12-4
 MEM_MACHINES = ["m05-2s2n4c2t-pmem", "m08-2s2n2c-hbm", "m11-2s2n3c2t-memless", "m14-2s2n4c2t-pmem-mov", "m03-1s2n4c2t", "m07-1s2d2n2c2t", "m12-4s2n4c2t", "m04-2s4c2t"]
 
 RM_SPECS = {
-    "C01": dict(policies=[TA], bias="mix", machines=RM_MACHINES_QUICK, floors={"c01_states_with_exclusive": 200},
+    "C01": dict(policies=[TA], bias="mix", machines=RM_MACHINES_QUICK, floors={"c01_states_with_exclusive": 200, "c03_grants_isolated": 300},
                 rule="histories of lifecycle-valid NRI requests generated from VERIF_SEED on catalogue machines under random accepted topology-aware configurations; monitors run after every request; non-trivial = post-request state with >=2 live containers and >=1 exclusive grant, distinct by (machine, config generation, sorted exclusive-grant shapes, live count)"),
     "C02": dict(policies=[BLN], bias="mix", machines=RM_MACHINES_QUICK, floors={"c02_states_nonempty": 200, "c02_idle_scope_checked": 100, "c02_hidden_ht_checked": 20},
                 rule="histories under random balloons configurations; non-trivial = post-request state with >=2 live containers and >=1 non-empty balloon, distinct by (machine, config generation, sorted (type, #cpus, #shared idle, #members))"),
-    "C03": dict(policies=[TA], bias="fill", machines=RM_MACHINES_QUICK, floors={"c03_tight_states": 200, "c03_grants_mixed": 20, "c03_grants_multi": 20, "create_failed": 5},
+    "C03": dict(policies=[TA], bias="fill", machines=RM_MACHINES_QUICK, floors={"c03_tight_states": 200, "c03_grants_mixed": 20, "c03_grants_multi": 20, "create_failed": 200, "c03_grants_isolated": 300},
                 rule="fill-biased histories; non-trivial = state where some pool has <1000m allocatable shared CPU or a request already failed for capacity; distinct by (machine, config generation, live container shapes incl. told cpusets)"),
     "C04": dict(policies=[TA, BLN], bias="mem", machines=MEM_MACHINES, floors={"c04_states_with_widened_zones": 100, "c04_pinned_checked": 500},
                 rule="memory-pressure histories on machines with DRAM/PMEM/HBM, CPU-less, movable-only and memory-less nodes; non-trivial = state in which some allocation spans >1 node (zone widened); distinct by (machine, #allocations, multiset of (zone mask, size MiB))"),
@@ -257,7 +257,7 @@ RM_SPECS = {
                 rule="histories under both policies; non-trivial = a reply/push that changed >=1 container other than its subject; distinct by (machine, op, #others, state shape)"),
     "C09": dict(policies=[TA, BLN], bias="mix", machines=RM_MACHINES_QUICK, floors={"c09_nontrivial_histories": 50},
                 rule="whole histories followed by stop/remove of everything and comparison with a fresh twin instance; non-trivial = history with >=1 failed request, reconfiguration or resynchronisation before quiescence; distinct by history"),
-    "C12": dict(policies=[TA, BLN], bias="optout", machines=RM_MACHINES_QUICK, floors={"c12_msgs_to_cpu_optout": 20, "c12_msgs_to_mem_optout": 50},
+    "C12": dict(policies=[TA, BLN], bias="optout-mix", machines=RM_MACHINES_QUICK, floors={"c12_msgs_to_cpu_optout": 20, "c12_msgs_to_mem_optout": 50},
                 rule="opt-out-biased histories; every adjustment/update/push addressed to an opted-out container is checked; evaluations = requests; distinct = distinct (machine, op, #others, state shape) of replies changing other containers"),
 }
 RM_SEEN_KEY = {"C12": "C05"}
@@ -266,12 +266,19 @@ C13_KINDS_TA = ["unparsable-available", "unparsable-reserved", "reserved-outside
 C13_KINDS_BLN = ["unparsable-available", "reserved-outside-available", "duplicate-type", "min-gt-max-cpus", "min-gt-max-balloons", "undefined-load", "bad-memory-type", "unsatisfiable"]
 
 MODE_SPECS = {
-    "C13": dict(policies=[TA, BLN], bias="mix", machines=RM_MACHINES_QUICK, modes=["seq", "twin"], props="C13,C14",
+    "C13": dict(policies=[TA, BLN], bias="mix", machines=RM_MACHINES_QUICK, modes=["seq", "twin"], props="C01,C02,C03,C04,C05,C12,C13,C14",
+                # C13: "after an accepted update every created or running container still holds an allocation that satisfies all
+                # invariants under the new configuration ... and every changed resource is pushed to the runtime": the clauses of
+                # C01-C05/C12 count for C13 when the request they fire on is a reconfiguration
+                report=["C13", "C01", "C02", "C03", "C04", "C05", "C12"], report_ops=["reconf"],
                 floors=dict({"c13_identical_checked": 100, "c13_rejected_checked": 60, "c13_accepted_checked": 100, "c13_twin_injected": 100,
                              "c13_identical_checked_in_clean_state": 40, "c13_rejected_checked_in_clean_state": 25, "c13_twin_injected_in_clean_state": 40},
                             **{"c13_twin_rejected_" + k: 1 for k in set(C13_KINDS_TA + C13_KINDS_BLN)}),
                 rule="(a) every reconfiguration inside generated histories is bracketed by a before/after observation (per-container cache resources, advertised zones, policy assignments, pushed updates): identical configs must change nothing, rejected ones must change nothing; (b) differential twins: a deterministic (self-twin calibrated) history is replayed with a rejected update of a PRNG-chosen kind injected at a PRNG-chosen request boundary and must be indistinguishable from the twin at every later request; after accepted updates every live container must still hold an allocation. distinct = distinct (kind, machine, state shape) brackets + injected twin cases"),
     "C11": dict(policies=[TA, BLN], bias="mix", machines=RM_MACHINES_QUICK, modes=["restart"], props="C01,C02,C03,C04,C05,C09,C11,C12",
+                # C11: "... every allocation invariant (C01-C04) holds; the returned updates bring the runtime's view in line with the
+                # cache": in restart histories the clauses of the other pipeline properties are reported under C11
+                report=["C11", "C01", "C02", "C03", "C04", "C05", "C09", "C12"],
                 floors={"c11_restart_checked_fresh-cache": 100, "c11_restart_checked_stale-cache": 100, "c11_down_create": 50, "c11_down_stop": 50},
                 level="fault_enumeration",
                 rule="histories with 1-2 plugin restarts: state-directory snapshot at a PRNG-chosen request boundary, plugin down, runtime drift (containers created/started/stopped/removed, pods added/removed while down), restart on the current or on the stale snapshot directory, Synchronize with the runtime's lists; then membership equalities (live <=> holds allocation, decided against a cache-less reference plugin synchronized with the same lists; gone => purged) and all C01-C05/C09/C12 monitors, on the restart and on every later request; distinct = distinct (machine, fresh|stale, restart number, post-sync state shape, policy)"),
@@ -295,7 +302,7 @@ def check_modes(prop, tier, seed):
         js = rm_jobs(prop, tier, seed, rmbin, sub, mode=mode, spec=spec)
         jobs += js
     jobs = run_jobs(jobs)
-    collect_rm(res, jobs, prop, props=spec.get("report", [prop]))
+    collect_rm(res, jobs, prop, props=spec.get("report", [prop]), report_ops=spec.get("report_ops"))
     rc = finish(res, dict(spec, level=spec.get("level", "exploration"), assumptions=RM_ASSUMPTIONS))
     if rc == 0:
         shutil.rmtree(rundir, ignore_errors=True)
@@ -326,7 +333,7 @@ def rm_jobs(prop, tier, seed, rmbin, rundir, mode="seq", extra_args=None, spec=N
     return jobs
 
 
-def collect_rm(res, jobs, prop, props=None):
+def collect_rm(res, jobs, prop, props=None, report_ops=None):
     props = props or [prop]
     for j in jobs:
         if not os.path.exists(j["out"]):
@@ -350,6 +357,8 @@ def collect_rm(res, jobs, prop, props=None):
         for v in bo.get("violations") or []:
             if v["prop"] not in props:
                 continue
+            if v["prop"] != prop and report_ops and v.get("op") not in report_ops:
+                continue  # another property's clause counts here only where this property's statement includes it
             w = bo.get("witness", {}).get("%s/%s/%s" % (v["prop"], v["check"], v["sig"]), "")
             v = dict(v)
             v["replay"] = save_replay(prop, w, "s%s" % res.seed) if w else ""
